@@ -505,3 +505,13 @@ func registerPaillier() {
 		},
 	})
 }
+
+// larger pairs for the CGGMP21 proofs, whose parameter floors force full-size moduli (same table as checks/c16/keys_test.go)
+var bigPrimes = map[string]primePair{
+	"general512": {"general512", "cfec07d5d1d13c5584798f6b0e51d9f5a38e1752c23d56ad8a4ca35b999baab1", "ccc9616ba1d4bd5a282df6d27564021c0b7f58c5b7943f394a8f16de0db016b5"},
+	"blum512": {"blum512", "ffcb7e5e88815bd60d924d335b31e956960f0aba19ac14257ced8a8299cc7473", "dc9d386832ee38fe4c6b383369c4ef19f559823ea0a051f63ecdf87b041c9f77"},
+	"safe512": {"safe512", "e9061daf0f3e5e4ab81120532317186c7d3b71058d1966cf2d54996f324c2a0b", "da60905ff4704f77c1168f60733a463a51f05330b615a80a88116fd4939e0f6f"},
+	"general2048": {"general2048", "c74bbbb6780ad6c73f5da694c8341ac20efbf8fcfe91e7a4218cd5d20b955915cf702ba023aabd8301a00dc5a4684cf68a8199701856950cb520b9a94302a0911043bf30091ed37dc563b243fb7c9e1e0591a3a0e3b744b0fe2949b32a0d6d8f141dbc69aff848145da4c0e77afe103c59e3306561411b43a51988a7a42571ed", "d212fef572bc00b089328ece4acb9a539a1ffad4577162316853579d280e240928fd976c1860f73404f12a21902e1ae0e9357d71414ef5e9a15158541105bb5b778db9cc861389dd05f209f60f17573e7e3bbc6d3e86bfe9efef0f92225ea6a53d12ea95126605921eed0199cca7a57b035d52d3df6a27d8d1ff790de76ac949"},
+	"blum2048": {"blum2048", "d90396b00176ed9a1cbafd9f7b7f774958a57009a844c0ab4063ea671964d176d3e142aa41afe6878d4f8d5edd3de0c66d7a4a8b1ca4408f4ae25ef82801bfbc4d6a63db2c6fd4e84bdf14ea58a52a910b141ae6a14228aebe6955492cf19f9376d32e917bfb85852e0fccfcbd47bfc14a19dd4076aa6a1b6011f0c1b8d0f837", "e0ba2d77dbca39170442eed71b833acfb157bd23996ace4c743381ccce20f6d31e8be513243a515373083ce79654e5ebe85b2b3cbe01312f3c57f7d5030a568dbb4cfd9b4ffe01682dd171f053e5b0d695081d651a5f76a90f7e19f36ece9d1ed2f1753a5a14247a7946346c675b14796d202fe2d8aa7cea6bc2942e48e54d5f"},
+	"safe2048": {"safe2048", "c7d33dfaf21f61b9c6bad5915bc4a5e04af5829b77e01957618f43bcba7af604e8a19763fadcbf949f7a7139448c1b62ba77d487fd0d09dda3680530b8f4b5e3e44b66ecbca59b4c5a5506eebc631a6eeca8e4cb8bbf8ed9966021c2714f7175b090f080e8762d20153c23272d360bff5a718769a654189c122f238726df99b3", "fd7e39aeb796be92a1eda69e5eff2314ee8761db394acf7a2d696d0a92b2e5d822a7b425bb7b29339257befa44a08debc41da6c17dbf1620ba9d791969b5e707377cc39583929d5ca29c6935af8ce93ddd77569ce01eb6dfebb739c5f56de88e5a5dbcc5467bc5dafc8cae6657bbf004e9af2f6939338f847e75e29c3016665b"},
+}
